@@ -239,14 +239,25 @@ func (l *BlockchainRpcTxWatcher) AddWaitForCsvTx(swapId, txId string, vout uint3
 		log.Infof("[TxWatcher] checkTxAboveCsvHeight returned: %s", err.Error())
 	}
 	if above {
-		err = l.csvPassedCallback(swapId)
-		if err == nil {
-			log.Infof("Swap %s already past CSV limit", swapId)
-			return
-		}
-		log.Infof("csv passed callback error: %v", err)
+		// The caller usually is an action of the swap's state machine and
+		// holds the swap's mutex: the callback sends an event to that same
+		// state machine, so it must not run on the caller's goroutine.
+		go func() {
+			err := l.csvPassedCallback(swapId)
+			if err == nil {
+				log.Infof("Swap %s already past CSV limit", swapId)
+				return
+			}
+			log.Infof("csv passed callback error: %v", err)
+			l.addCsvTx(swapId, txId, vout, startingBlockheight, csv)
+		}()
+		return
 	}
 
+	l.addCsvTx(swapId, txId, vout, startingBlockheight, csv)
+}
+
+func (l *BlockchainRpcTxWatcher) addCsvTx(swapId, txId string, vout uint32, startingBlockheight, csv uint32) {
 	l.Lock()
 	defer l.Unlock()
 	l.csvtxWatchList[swapId] = &SwapTxInfo{
